@@ -7,7 +7,8 @@ From Coq Require Import Permutation.
 From PlzV Require Import Base.Harness Model.C08 Model.C08_Set Model.C08_Spec Gen.RuleHashProg Proof.C07.
 From PlzV Require Import Model.C07_Src Proof.C07_Src.
 From PlzV Require Import Model.C07_Provide Proof.C07_Provide Model.C07_Hasher Proof.C07_Hasher.
-From PlzV Require Gen.C07SourceHash Gen.C07Provide Gen.C07Hasher.
+From PlzV Require Import Model.C07_Link Proof.C07_Link.
+From PlzV Require Gen.C07SourceHash Gen.C07Provide Gen.C07Hasher Gen.C03Incr.
 
 (* For every hash function, for the rule hash (runtime = false) and the runtime hash alike: any two presentations
    of one well-formed target - every map-valued attribute (named srcs, named outs, named data, provides, entry
@@ -237,3 +238,49 @@ Qed.
 Example C07_xattr_isolated_iff_distinct :
   forall (r : xrule) (algos : list str), nodupb algos = true -> (isolated r algos <-> names_distinct r algos = true).
 Proof. exact isolated_iff_names_distinct. Qed.
+
+(* ------------------------------------------------------------------------------------------------------------------
+   What earlier invocations leave behind.  A filegroup of a plain source file links its output to the user's file
+   (one inode: content and extended attributes are shared); `lk_same_branch` is the same-file way out of
+   filegroupBuilder.Build as regenerated from the source (Gen/C03Incr.v fg_same_branch), interpreted by the model.
+   For every first content and every history of invocations of `plz hash --detailed` on a consumer of the filegroup
+   (each a new process), edits of the source in place (same inode), replacements (new inode) and rm -rf plz-out: the
+   Source hash every invocation prints is the one a FRESH COPY of the tree as it is at that moment prints. *)
+Definition C07_link_statement : Prop :=
+  forall (c0 : str) (evs : list lk_event),
+    lk_runs lk_same_branch (lk_init c0) evs = lk_fresh_reports lk_same_branch c0 evs.
+
+Theorem C07_link_full : C07_link_statement.
+Proof. exact C07_link_full_proof. Qed.
+Print Assumptions C07_link_full.
+
+(* Non-vacuity: cold run, warm run, edit in place, run (the sequence that goes wrong without the mark), then a
+   replacement with the old content of the output inode, a run (the separate inode is kept and gets the attribute),
+   another replacement, a run (re-linked), rm -rf plz-out, a run. *)
+Example C07_link_nonvacuous :
+  let evs := [LkRun; LkRun; LkEdit (s "two"); LkRun; LkReplace (s "two"); LkRun; LkReplace (s "three"); LkRun; LkRmOut; LkRun] in
+  lk_run_acts lk_same_branch LkNoEntry LkNoEntry = LkNil
+  /\ lk_runs lk_same_branch (lk_init (s "one")) evs = [s "one"; s "one"; s "two"; s "two"; s "three"; s "three"]
+  /\ lk_fresh_reports lk_same_branch (s "one") evs = [s "one"; s "one"; s "two"; s "two"; s "three"; s "three"]
+  /\ lk_o (lk_final lk_same_branch (lk_init (s "one")) [LkRun; LkReplace (s "one"); LkRun]) = LkSep (LkI (s "one") (Some (s "one"))).
+Proof. cbv zeta. repeat split; vm_compute; reflexivity. Qed.
+
+(* The user's file never gets an attribute: along every history the source inode is left without one. *)
+Theorem C07_link_source_untouched :
+  forall (c0 : str) (evs : list lk_event), lk_xattr (lk_src (lk_final lk_same_branch (lk_init c0) evs)) = None.
+Proof. exact C07_link_source_untouched_proof. Qed.
+Print Assumptions C07_link_source_untouched.
+
+(* The mark is what the theorem rests on: for EVERY way out that leaves no memo entry on the output, and every two
+   contents, the run after `cold run, warm run, edit in place` prints the digest of the old content while a fresh
+   copy prints the new one. *)
+Example C07_link_mark_is_necessary :
+  forall sb, lk_run_acts sb LkNoEntry LkNoEntry = LkNoEntry -> forall c0 c1, c0 <> c1 ->
+    lk_runs sb (lk_init c0) [LkRun; LkRun; LkEdit c1; LkRun] = [c0; c0; c0]
+    /\ lk_fresh_reports sb c0 [LkRun; LkRun; LkEdit c1; LkRun] = [c0; c0; c1].
+Proof. exact link_mark_necessary. Qed.
+
+Example C07_link_without_copyhash_is_refuted :
+  ~ (forall c0 evs, lk_runs [C03Incr.FgMarkBuilt; C03Incr.FgReturn] (lk_init c0) evs
+                    = lk_fresh_reports [C03Incr.FgMarkBuilt; C03Incr.FgReturn] c0 evs).
+Proof. exact link_without_copyhash_refuted. Qed.
